@@ -170,7 +170,7 @@ static void exec(const plan_t *p)
             int os = (int)o->a[1];
             spif_mbuff_t other = (os >= 0 && os < NSLOT) ? objs[os] : NULL;
             spif_bool_t b;
-            if (os == s) goto skip;
+            if (os == s) probe_hit("self_as_argument");
             if (!self->buff) probe_hit("append_on_empty");
             if (k[0] == 'a') b = viaclass ? (spif_bool_t)(long)VIA(append)(self, other) : spif_mbuff_append(self, other);
             else b = viaclass ? (spif_bool_t)(long)VIA(prepend)(self, other) : spif_mbuff_prepend(self, other);
@@ -205,14 +205,15 @@ static void exec(const plan_t *p)
         } else if (!strcmp(k, "splice") || !strcmp(k, "splice_ptr")) {
             long long idx = o->a[1], cnt = o->a[2], L = (long long)m->len;
             const unsigned char *ins = NULL; size_t il = 0;
+            unsigned char *selfcopy = NULL;
             spif_bool_t b;
             int expect_ok;
             if (!strcmp(k, "splice")) {
                 int os = (int)o->a[3];
                 spif_mbuff_t other;
-                if (os == s) goto skip;
                 other = (os >= 0 && os < NSLOT) ? objs[os] : NULL;
                 if (other) { ins = mod[os].b; il = mod[os].len; }
+                if (other && os == s) { selfcopy = malloc(il + 1); memcpy(selfcopy, ins, il); ins = selfcopy; probe_hit("self_as_argument"); }    /* spliced into itself */
                 b = viaclass ? (spif_bool_t)(long)VIA(splice)(self, (spif_memidx_t)idx, (spif_memidx_t)cnt, other) : spif_mbuff_splice(self, idx, cnt, other);
             } else {
                 if (arg) { ins = arg; il = o->slen; }
@@ -229,6 +230,7 @@ static void exec(const plan_t *p)
                 m_delete(m, (size_t)idx, (size_t)cnt);
                 m_insert(m, (size_t)idx, ins, il);
             }
+            free(selfcopy);
         } else if (!strcmp(k, "sprintf")) {
             char out[256], sa[80];
             int fid = (int)o->a[1], n;
@@ -474,8 +476,7 @@ static void gen(plan_t *p, rng_t *r)
         if (gdone[s] && k < 60) { gen_ctor(p, r, s, 0, hard, 0); continue; }
         if (k < 16) {
             int os = pick(r, 1);
-            if (os == s) os = rng_chance(r, 1, 2) ? -1 : os;
-            if (os == s) os = -1;
+            if (os == s && !rng_chance(r, 1, 3)) os = -1;            /* one time in three the object itself is the argument */
             plan_op(p, 0, rng_chance(r, 1, 2) ? "append" : "prepend", 2, (long)s, (long)os);
             if (os >= 0) glen[s] += glen[os];
         } else if (k < 30) {
@@ -486,7 +487,7 @@ static void gen(plan_t *p, rng_t *r)
         else if (k < 44) plan_op(p, 0, "trim", 1, (long)s);
         else if (k < 54) {
             long idx = gen_index(r, glen[s]), cnt = rng_chance(r, 1, 2) ? (long)rng_below(r, 4) : gen_index(r, glen[s]);
-            if (rng_chance(r, 1, 2)) { int os = pick(r, 1); if (os == s) os = -1; plan_op(p, 0, "splice", 4, (long)s, idx, cnt, (long)os); }
+            if (rng_chance(r, 1, 2)) { int os = pick(r, 1); if (os == s && !rng_chance(r, 1, 3)) os = -1; plan_op(p, 0, "splice", 4, (long)s, idx, cnt, (long)os); }
             else { o = plan_op(p, 0, "splice_ptr", 3, (long)s, idx, cnt); if (!rng_chance(r, 1, 8)) { n = gen_bytes(r, gbuf, sizeof(gbuf), 0); op_str(o, gbuf, n); } }
         } else if (k < 58) {
             o = plan_op(p, 0, "sprintf", 3, (long)s, (long)rng_below(r, 5), (long)(int)rng_u64(r));
